@@ -93,7 +93,7 @@ Definition pg_read_string (st : pg_state) : option (list byte * pg_state) :=
 
 Inductive pg_out := PgCount (n : N) | PgPast | PgFuel.
 
-(* the parameter loop of Match; n counts the map insertions (len(Parameters) > 0 iff n > 0) *)
+(* the parameter loop of Match; n counts the map insertions (the map is non-empty iff n > 0) *)
 Fixpoint pg_params (fuel : nat) (st : pg_state) (n : N) : pg_out :=
   match fuel with
   | O => PgFuel
